@@ -614,6 +614,13 @@ fn bits_mode(seed: u64, n: u64, per: usize) {
                 if g(|| pk.verify(&flip(&m, b), sig)) == Ok(false) { inc(&mut st, "msg_rejected") } else { st["msg_accepted"].as_array_mut().unwrap().push(json!(b)) }
             }
         }
+        // parsable perturbations: add the generator to the signature / to the key
+        let sig_pt: <P as Pairing>::G1 = conv(&sig).unwrap();
+        let pk_pt: <P as Pairing>::G2 = conv(&pk).unwrap();
+        let sig_alt: agg::Signature<P> = conv(&sig_pt.plus_point(&<P as Pairing>::G1::one_point())).unwrap();
+        let pk_alt: agg::PublicKey<P> = conv(&pk_pt.plus_point(&<P as Pairing>::G2::one_point())).unwrap();
+        st["alg_sig"] = jb(g(|| pk.verify(&m, sig_alt)));
+        st["alg_key"] = jb(g(|| pk_alt.verify(&m, sig)));
         // PS: perturb the unblinded signature and the message scalars
         let nk = 1 + (i % 3) as usize;
         let sc = gen_ps(&mut rng, nk, nk, i % 2 == 0);
